@@ -387,3 +387,123 @@ Proof.
   intros Hwf h. pose proof (hub_inv_run evs Hwf) as Hinv. fold h in Hinv.
   split; [reflexivity|]. split; [exact (inv_nodup _ _ Hinv)|]. split; [exact (inv_present _ _ Hinv)|exact (inv_identity _ _ Hinv)].
 Qed.
+
+(* ------------------------------------------------------------------ part 2: encoding and decoding *)
+
+Lemma num_json_some f j : num_json f = Some j -> exists l, f = Finite l /\ j = JNum l /\ num_ok l = true.
+Proof.
+  unfold num_json. destruct f as [l|]; [|discriminate]. destruct (num_ok l) eqn:E; [|discriminate].
+  intros H; inversion H; subst. exists l. auto.
+Qed.
+
+Lemma stats_json_some s j :
+  stats_json s = Some j ->
+  exists la sz fp, s = mk_rstats la (Finite sz) (Finite fp) /\ num_ok sz = true /\ num_ok fp = true
+                   /\ j = JObj [(k_last, jstr la); (k_size, JNum sz); (k_fps, JNum fp)].
+Proof.
+  unfold stats_json. destruct s as [la sz fp]. cbn [rs_size rs_fps rs_last].
+  destruct (num_json sz) as [a|] eqn:Ea; [|discriminate]. destruct (num_json fp) as [b|] eqn:Eb; [|discriminate].
+  apply num_json_some in Ea. apply num_json_some in Eb.
+  destruct Ea as (l1 & -> & -> & H1). destruct Eb as (l2 & -> & -> & H2).
+  intros H; inversion H; subst. exists la, l1, l2. auto.
+Qed.
+
+Lemma report_json_some r j :
+  report_json r = Some j ->
+  exists t x, stats_json (r_tx r) = Some t /\ stats_json (r_rx r) = Some x /\
+    j = JObj [(k_canRead, JBool (r_canRead r)); (k_canWrite, JBool (r_canWrite r));
+              (k_connected, jstr (r_connected r)); (k_expiresAt, jstr (r_expiresAt r));
+              (k_remoteAddr, jstr (r_remoteAddr r)); (k_scopes, scopes_json (r_scopes r));
+              (k_stats, JObj [(k_tx, t); (k_rx, x)]);
+              (k_topic, jstr (r_topic r)); (k_userAgent, jstr (r_userAgent r))].
+Proof.
+  unfold report_json. destruct (stats_json (r_tx r)) as [t|]; [|discriminate].
+  destruct (stats_json (r_rx r)) as [x|]; [|discriminate]. intros H; inversion H; subst. exists t, x. auto.
+Qed.
+
+Lemma jstr_list_printable l : forallb printable (map jstr l) = true.
+Proof. induction l; [reflexivity|exact IHl]. Qed.
+
+Lemma jstr_list_depth l : fold_right (fun x a => N.max (jdepth x) a) 0 (map jstr l) = 0.
+Proof. induction l as [|x l IH]; [reflexivity|]. cbn [map fold_right jstr jdepth]. rewrite IH. reflexivity. Qed.
+
+Lemma scopes_json_ok o : printable (scopes_json o) = true /\ jdepth (scopes_json o) <= 1.
+Proof.
+  destruct o as [l|]; cbn [scopes_json printable jdepth]; [|split; [reflexivity|lia]].
+  rewrite jstr_list_printable, jstr_list_depth. split; [reflexivity|lia].
+Qed.
+
+Lemma stats_json_ok s j : stats_json s = Some j -> printable j = true /\ jdepth j = 1.
+Proof.
+  intros H. apply stats_json_some in H. destruct H as (la & sz & fp & -> & H1 & H2 & ->).
+  cbn [printable forallb snd jstr jdepth fold_right]. rewrite H1, H2. split; reflexivity.
+Qed.
+
+Lemma report_json_ok r j : report_json r = Some j -> printable j = true /\ jdepth j <= 3.
+Proof.
+  intros H. apply report_json_some in H. destruct H as (t & x & Ht & Hx & ->).
+  apply stats_json_ok in Ht. apply stats_json_ok in Hx. destruct Ht as [Pt Dt]. destruct Hx as [Px Dx].
+  destruct (scopes_json_ok (r_scopes r)) as [Ps Ds].
+  cbn [printable forallb snd jstr jdepth fold_right]. rewrite Pt, Px, Ps, Dt, Dx. split; [reflexivity|lia].
+Qed.
+
+Lemma map_opt_report_ok rs l :
+  map_opt report_json rs = Some l ->
+  forallb printable l = true /\ fold_right (fun x a => N.max (jdepth x) a) 0 l <= 3.
+Proof.
+  revert l. induction rs as [|r rs IH]; intros l; cbn [map_opt].
+  - intros H; inversion H; subst. split; [reflexivity|cbn; lia].
+  - destruct (report_json r) as [j|] eqn:Ej; [|discriminate].
+    destruct (map_opt report_json rs) as [js|]; [|discriminate]. intros H; inversion H; subst.
+    destruct (IH js eq_refl) as [P D]. apply report_json_ok in Ej. destruct Ej as [Pj Dj].
+    cbn [forallb fold_right]. rewrite Pj, P. split; [reflexivity|lia].
+Qed.
+
+Lemma reports_json_ok rs j : reports_json rs = Some j -> printable j = true /\ jdepth j <= max_depth.
+Proof.
+  unfold reports_json, max_depth. destruct rs as [|r rs]; [intros H; inversion H; subst; split; [reflexivity|cbn; lia]|].
+  destruct (map_opt report_json (r :: rs)) as [l|] eqn:E; [|discriminate]. intros H; inversion H; subst.
+  apply map_opt_report_ok in E. destruct E as [P D]. cbn [printable jdepth]. split; [exact P|lia].
+Qed.
+
+Theorem encode_wf_lemma rs s : encode_reports rs = Some s -> json_wf s = true.
+Proof.
+  unfold encode_reports. destruct (reports_json rs) as [j|] eqn:E; [|discriminate].
+  intros H; inversion H; subst. apply reports_json_ok in E. apply print_wf; apply E.
+Qed.
+
+(* closed computations on the field names *)
+Ltac keys :=
+  repeat match goal with
+         | |- context [key_is ?a ?b] =>
+           let v := eval vm_compute in (key_is a b) in change (key_is a b) with v
+         end.
+
+Ltac san_keys :=
+  change (sanitize k_canRead) with k_canRead; change (sanitize k_canWrite) with k_canWrite;
+  change (sanitize k_connected) with k_connected; change (sanitize k_expiresAt) with k_expiresAt;
+  change (sanitize k_remoteAddr) with k_remoteAddr; change (sanitize k_scopes) with k_scopes;
+  change (sanitize k_stats) with k_stats; change (sanitize k_topic) with k_topic;
+  change (sanitize k_userAgent) with k_userAgent; change (sanitize k_tx) with k_tx;
+  change (sanitize k_rx) with k_rx; change (sanitize k_last) with k_last;
+  change (sanitize k_size) with k_size; change (sanitize k_fps) with k_fps.
+
+Section DecodeEncode.
+  Variable lr : N -> N.
+  Variable ptime : bytes -> option (Z * Z).
+  Variable ncanon : bytes -> option bytes.
+
+  Lemma unmarshal_stats_canon cur s j :
+    stats_json s = Some j ->
+    unmarshal_statistics lr ncanon cur (canon true j) = view_stats_with lr ncanon sanitize s.
+  Proof.
+    intros H. apply stats_json_some in H. destruct H as (la & sz & fp & -> & _ & _ & ->).
+    cbn [canon map fst snd jstr]. san_keys.
+    unfold unmarshal_statistics, view_stats_with.
+    cbn [bind_tmp_string]. keys. cbn [bind_float].
+    destruct (ncanon sz) as [a|] eqn:Ea.
+    - destruct (ncanon fp) as [b|] eqn:Eb.
+      + destruct (read_last lr (sanitize la)) as [[d nv]|]; reflexivity.
+      + cbn [bind_tmp_number]. keys. destruct (read_last lr (sanitize la)) as [[d nv]|]; reflexivity.
+    - cbn [bind_tmp_number]. keys. destruct (read_last lr (sanitize la)) as [[d nv]|]; reflexivity.
+  Qed.
